@@ -371,7 +371,9 @@ def r4_validation(ctx: Context) -> None:
                 ok = out.kind == "raise" and out.name == "ValueError"
                 want = "raise ValueError"
             else:
-                ok = out.kind == "return" and out.value is given
+                same_seq = out.kind == "return" and isinstance(out.value, (list, tuple)) and isinstance(given, (list, tuple)) and len(out.value) == len(given) \
+                    and all(a_ is b_ for a_, b_ in zip(out.value, given))        # a tuple()/list() snapshot of the same items
+                ok = out.kind == "return" and (out.value is given or same_seq)
                 want = f"return self.{attr}"
             rows.append({"method": meth, "len": k, "D": D, "outcome": out.brief()[:60], "expected": want})
             cls = "len<D" if k < D else "len=D" if k == D else "len>D"
@@ -446,7 +448,8 @@ def r6_filters(ctx: Context) -> None:
         j = gen.target.id if gen is not None and isinstance(gen.target, ast.Name) else None
         if j is None:
             raise AnalysisError(f"{f.loc(c)}: the filter is not applied inside a single comprehension over the ensemble members; cannot decide R6")
-        ok = len(c.args) == 1 and src(c.args[0]) in (f"{sim}[{j}, :, {i}]", f"{sim}[({j}, :, {i})]") and src(gen.iter) in (f"range({sim}.shape[0])", f"range(len({sim}))")
+        nf = normaliser(ctx.prog, f, inline_locals=False)
+        ok = len(c.args) == 1 and str(nf.rat(c.args[0])) == str(nf.rat(parse_expr(f"{sim}[{j}, :, {i}]"))) and src(gen.iter) in (f"range({sim}.shape[0])", f"range(len({sim}))", f"range(0, {sim}.shape[0])")
         ctx.check(ok, "R6.pairing", "BaseLoss._filter_data:filter-branch", "filter i is applied to coordinate i of every ensemble member j",
                   f"filter applied as `{src(c)}` for `{j}` in `{src(gen.iter)}`: filter/coordinate/member indices do not pair up", f, c)
     # compute_loss: filters go to the simulated data only; the real series reaches compute_loss_1d unfiltered
